@@ -992,6 +992,12 @@ class Struct(NameValues):
         with indent(2):
             for m in self.values:
                 m.emit_assert()
+            # Optional members can only be left out at the end.
+            for m, n in zip(self.values, self.values[1:]):
+                if isinstance(m, NetOptional):
+                    if not isinstance(n, NetOptional):
+                        raise ValueError("optional member followed by non-optional member")
+                    print("assert!(self.{}.is_some() || self.{}.is_none());".format(snake(m.name), snake(n.name)))
             for m in self.values:
                 m.emit_encode()
         print("        Ok(_p.written())")
@@ -1244,12 +1250,14 @@ class NetOptional(Member):
         if not inner_decode.endswith(END):
             raise ValueError("can't form an optional of this type")
         return "{}.ok()".format(inner_decode[:-len(END)])
-    def encode_expr(self, self_expr):
-        return self.inner.encode_expr("{}.unwrap()").format(self_expr)
+    def emit_encode(self):
+        # An absent optional member is simply not written. `Struct` asserts
+        # that only trailing members are absent.
+        print("if let Some(v) = self.{} {{".format(snake(self.name)))
+        print("    {}?;".format(self.inner.encode_expr("v")))
+        print("}")
     def debug_expr(self, self_expr):
         return "{}.as_ref().map(|v| {})".format(self_expr, self.inner.debug_expr("v"))
-    def assert_expr(self, self_expr):
-        return "assert!({}.is_some())".format(self_expr)
     def serialize_type(self):
         return {"kind": self.kind, "inner": self.inner.serialize_type()}
     @staticmethod
